@@ -60,7 +60,12 @@ def gen_cases(tier, seed):
                         shape[m] = s
                 if int(np.prod(shape)) > 300:
                     continue
-                for kind in ("generic", "symmetric", "almost", "first-group-symmetric", "last-group-symmetric", "nearly"):
+                kinds = ["generic", "symmetric", "almost", "first-group-symmetric", "last-group-symmetric", "nearly"]
+                if len(groups[0]) >= 3:
+                    # invariant under a proper subgroup of the first group's permutations only (rotations; rotations and reversal;
+                    # swaps of the 1st/2nd and 3rd/4th listed modes): symmetric-looking, but not symmetric
+                    kinds += ["sub-cyclic", "sub-dihedral", "sub-pairs"]
+                for kind in kinds:
                     yield {"w": "dense", "shape": shape, "groups": groups, "kind": kind, "shuffle_groups": bool(rng.integers(0, 2)),
                            "cseed": int(seed) * 141650939 % (2 ** 31) + next(cs)}
                 # value classes: stored element types whose own arithmetic saturates / wraps (masks, narrow integers), and infinite entries
@@ -147,6 +152,38 @@ def run_case(case, ctx):
         A = refops.symmetrize(A, groups[:1])
     elif case["kind"] == "last-group-symmetric":
         A = refops.symmetrize(A, groups[-1:])
+    elif case["kind"].startswith("sub-"):
+        g = groups[0]
+        L = len(g)
+        gens = {"sub-cyclic": [tuple(list(range(1, L)) + [0])], "sub-dihedral": [tuple(list(range(1, L)) + [0]), tuple(range(L - 1, -1, -1))],
+                "sub-pairs": [tuple([1, 0] + list(range(2, L)))] + ([tuple([0, 1, 3, 2] + list(range(4, L)))] if L >= 4 else [])}[case["kind"]]
+        elems = {tuple(range(L))}
+        frontier = list(elems)
+        while frontier:
+            p_ = frontier.pop()
+            for q_ in gens:
+                r_ = tuple(p_[i_] for i_ in q_)
+                if r_ not in elems:
+                    elems.add(r_)
+                    frontier.append(r_)
+        # small-integer data and plain sums (no division): the invariance under the subgroup is exact, bit for bit
+        A = rng.integers(-6, 7, size=shape).astype(float)
+        acc = np.zeros(shape)
+        for p_ in elems:
+            axes = list(range(N))
+            for i_, m in enumerate(g):
+                axes[m] = g[p_[i_]]
+            acc = acc + np.transpose(A, axes)
+        A = acc
+        # the other groups are made fully symmetric (sums over all their permutations), so that only the first group decides
+        for g2 in groups[1:]:
+            acc = np.zeros(shape)
+            for pm in itertools.permutations(range(len(g2))):
+                axes = list(range(N))
+                for i_, m in enumerate(g2):
+                    axes[m] = g2[pm[i_]]
+                acc = acc + np.transpose(A, axes)
+            A = acc
     elif case["kind"] == "nearly":
         # symmetric up to a relative perturbation of one entry far below any tolerance-based comparison
         A = refops.symmetrize(A, groups)
